@@ -2,9 +2,10 @@
 (* Judge of C10 observations.  One event per call of find_constraint_satisfaction:
    {tid, i, cons:[node]   the restriction handed to the solver, projected (node = {t,v,neg,ren,ch})
     iuse, ft, ff, pt      the flag sets of the call
-    sols:[[flag]]}        the produced assignments IN ORDER, each as the flags set to True
+    sols:[[flag]],        the produced assignments IN ORDER, each as the flags set to True
+    after:{iuse,ft,ff,pt}}  contents of the argument objects after the call (iuse is reused by the next call)
    Clauses: OutsideDomain (generator error), Sound, ForcedOn, ForcedOff, OutsideIuse, Duplicate,
-   Complete, PreferredFirst.  The offending assignment is printed with the verdict.          *)
+   Complete, PreferredFirst, ArgsUnchanged (the inputs judged are the ones the caller put in).  The offending assignment is printed with the verdict.          *)
 EXTENDS RequiredUse, TraceLib
 VARIABLE l
 ReportX(tid, i, bad) == \A c \in bad : PrintT(<<"VERDICT", tid, i, c[1], c[2]>>)
@@ -22,6 +23,10 @@ Judge(e) ==
                  \cup If(~(obs[k] \subseteq iuse), "OutsideIuse", e.sols[k])
                  \cup If(\E j \in DOMAIN obs : j < k /\ obs[j] = obs[k], "Duplicate", e.sols[k])
                  : k \in DOMAIN obs}
+          \cup If(AsSet(e.after.iuse) # iuse, "ArgsUnchanged", <<"iuse">>)
+          \cup If(AsSet(e.after.ft) # ft, "ArgsUnchanged", <<"force_true">>)
+          \cup If(AsSet(e.after.ff) # ff, "ArgsUnchanged", <<"force_false">>)
+          \cup If(AsSet(e.after.pt) # pt, "ArgsUnchanged", <<"prefer_true">>)
           \cup UNION {If(on \notin seen, "Complete", SetToSeq(on)) : on \in Sols(e.cons, iuse, ft, ff)}
           \cup If(Status(e.cons, pref) = "sat" /\ pref \in Candidates(iuse, ft, ff)
                   /\ (Len(obs) = 0 \/ obs[1] # pref), "PreferredFirst", SetToSeq(pref))
